@@ -50,12 +50,22 @@ type fakeConn struct {
 	closed  atomic.Int32
 	owner   atomic.Int32
 	spin    int // busy iterations inside Close (a real Close is a system call, not instantaneous)
+	// close behaviour (conn_kinds.go): what the connection does when somebody closes it
+	kind     string        // name of the closeKind ("" = clean)
+	closeErr error         // what Close reports; the connection is closed all the same
+	delay    time.Duration // time spent inside Close (virtual time only)
+	inner    net.Conn      // a real connection underneath: its Close is called and its result passed on
+	released atomic.Bool   // the harness has torn the real connection down (end of case)
+	lastErr  atomic.Value  // string: what the most recent Close reported ("" = nil)
 }
 
 type fakeAddr string
 
 func (a fakeAddr) Network() string { return "fake" }
 func (a fakeAddr) String() string  { return string(a) }
+
+// virtualEra: instants before it can only be read from a synctest bubble's clock.
+var virtualEra = time.Date(2010, 1, 1, 0, 0, 0, 0, time.UTC)
 
 var errClosed = errors.New("fake connection is closed")
 
@@ -77,8 +87,46 @@ func (c *fakeConn) Close() error {
 			runtime.Gosched()
 		}
 	}
+	if c.delay > 0 && time.Now().Before(virtualEra) {
+		// only on a virtual clock (synctest bubbles start at 2000-01-01): the pool's janitor runs on the
+		// real clock outside every bubble and must not be held up - with the pool's locks - for real seconds
+		time.Sleep(c.delay)
+	}
+	err := c.closeErr
+	if c.inner != nil && !c.released.Load() {
+		err = c.inner.Close()
+	}
+	if err != nil {
+		c.lastErr.Store(err.Error())
+	} else {
+		c.lastErr.Store("")
+	}
 	c.closed.Add(1)
-	return nil
+	return err
+}
+
+// closeReport says, for messages, how the connection answers Close.
+func (c *fakeConn) closeReport() string {
+	k := c.kind
+	if k == "" {
+		k = "clean"
+	}
+	if e, _ := c.lastErr.Load().(string); e != "" {
+		return fmt.Sprintf("%s; its Close reported %q", k, e)
+	}
+	if c.closeErr != nil {
+		return fmt.Sprintf("%s; its Close reports %q", k, c.closeErr.Error())
+	}
+	return k
+}
+
+// closeFails: a Close of this connection reports (or has reported) an error.
+func (c *fakeConn) closeFails() bool {
+	if c.closeErr != nil {
+		return true
+	}
+	e, _ := c.lastErr.Load().(string)
+	return e != ""
 }
 func (c *fakeConn) LocalAddr() net.Addr                { return fakeAddr("local") }
 func (c *fakeConn) RemoteAddr() net.Addr               { return fakeAddr(fmt.Sprintf("backend%d", c.Backend)) }
